@@ -16,6 +16,7 @@ limitations under the License.
 */
 
 #include <memory>       // std::make_shared
+#include <mutex>        // std::unique_lock, std::try_to_lock
 #include <sstream>      // std::ostringstream
 #include <string>       // std::string
 #include <type_traits>  // std::remove_const_t
@@ -26,6 +27,30 @@ limitations under the License.
 #include "optree/optree.h"
 
 namespace optree {
+
+namespace {
+
+// Acquire the registry lock without holding the GIL while blocking. The current lock holder may be
+// running Python code (e.g., `repr()` of a class for an error message), which needs the GIL to make
+// progress. A thread that blocks on the lock while holding the GIL would deadlock the interpreter.
+template <typename Lock>
+inline Lock AcquireRegistryLock(read_write_mutex& mutex) {  // NOLINT[runtime/references]
+    Lock lock{mutex, std::try_to_lock};
+    if (!lock.owns_lock()) [[unlikely]] {
+        const py::gil_scoped_release gil_release{};
+        lock.lock();
+    }
+    return lock;
+}
+
+#ifdef HAVE_READ_WRITE_LOCK
+using registry_read_lock = std::shared_lock<read_write_mutex>;
+#else
+using registry_read_lock = std::unique_lock<read_write_mutex>;
+#endif
+using registry_write_lock = std::unique_lock<read_write_mutex>;
+
+}  // namespace
 
 template <bool NoneIsLeaf>
 /*static*/ PyTreeTypeRegistry* PyTreeTypeRegistry::Singleton() {
@@ -106,7 +131,7 @@ template <bool NoneIsLeaf>
                                              const py::object& path_entry_type,
                                              const std::string& registry_namespace) {
     {
-        const scoped_write_lock_guard lock{sm_mutex};
+        const auto lock = AcquireRegistryLock<registry_write_lock>(sm_mutex);
 
         RegisterImpl<NONE_IS_NODE>(cls,
                                    flatten_func,
@@ -205,7 +230,7 @@ template <bool NoneIsLeaf>
 
 /*static*/ void PyTreeTypeRegistry::Unregister(const py::object& cls,
                                                const std::string& registry_namespace) {
-    const scoped_write_lock_guard lock{sm_mutex};
+    const auto lock = AcquireRegistryLock<registry_write_lock>(sm_mutex);
 
     const auto registration1 = UnregisterImpl<NONE_IS_NODE>(cls, registry_namespace);
     const auto registration2 = UnregisterImpl<NONE_IS_LEAF>(cls, registry_namespace);
@@ -223,7 +248,7 @@ template <bool NoneIsLeaf>
 /*static*/ PyTreeTypeRegistry::RegistrationPtr PyTreeTypeRegistry::Lookup(
     const py::object& cls,
     const std::string& registry_namespace) {
-    const scoped_read_lock_guard lock{sm_mutex};
+    const auto lock = AcquireRegistryLock<registry_read_lock>(sm_mutex);
 
     PyTreeTypeRegistry* const registry = Singleton<NoneIsLeaf>();
     if (!registry_namespace.empty()) [[unlikely]] {
@@ -280,7 +305,7 @@ template PyTreeKind PyTreeTypeRegistry::GetKind<NONE_IS_LEAF>(
 
 // NOLINTNEXTLINE[readability-function-cognitive-complexity]
 /*static*/ void PyTreeTypeRegistry::Clear() {
-    const scoped_write_lock_guard lock{sm_mutex};
+    const auto lock = AcquireRegistryLock<registry_write_lock>(sm_mutex);
 
     PyTreeTypeRegistry* const registry1 = PyTreeTypeRegistry::Singleton<NONE_IS_NODE>();
     PyTreeTypeRegistry* const registry2 = PyTreeTypeRegistry::Singleton<NONE_IS_LEAF>();
